@@ -283,10 +283,16 @@ def canon(e, env):
         if e['method'] == 'unwrap_or_else' and len(args_) == 1 and args_[0] in ('IsNone::none', '|| NULL', 'NULL'):
             return '%s.unwrap_or(NULL)' % canon(e['ch'][0], env)
         # `o.map_or(d, f)` is `o.map(f).unwrap_or(d)`; `o.map_or_else(d, f)` is `o.map(f).unwrap_or_else(d)`
+        if e['method'] == 'map' and args_ == ['|a0| a0'] and callee_is(e, 'Option::map') and _literal_identity(e['ch'][1]):
+            return canon(e['ch'][0], env)          # mapping with the identity
         if e['method'] == 'map_or' and len(args_) == 2 and callee_is(e, 'Option::map_or'):
+            if args_[1] == '|a0| a0' and _literal_identity(e['ch'][2]):
+                return '%s.unwrap_or(%s)' % (canon(e['ch'][0], env), args_[0])
             return '%s.map(%s).unwrap_or(%s)' % (canon(e['ch'][0], env), args_[1], args_[0])
         if e['method'] == 'map_or_else' and len(args_) == 2 and callee_is(e, 'Option::map_or_else'):
             inner_ = '%s.map(%s)' % (canon(e['ch'][0], env), args_[1])
+            if args_[1] == '|a0| a0' and _literal_identity(e['ch'][2]):
+                inner_ = canon(e['ch'][0], env)
             if args_[0] in ('IsNone::none', '|| NULL', 'NULL'):
                 return '%s.unwrap_or(NULL)' % inner_
             return '%s.unwrap_or_else(%s)' % (inner_, args_[0])
@@ -589,6 +595,17 @@ def _bool_match(e):
     if lits[0] == 'false' and lits[1] in ('true', '_'):
         return e['ch'][0], e['arms'][1]['body'], e['arms'][0]['body']
     return None
+
+
+def _literal_identity(c):
+    """`|x| x` written out (not a coercion closure that merely prints as the identity)"""
+    c = peel(c)
+    if c.get('k') != 'Closure' or len(c.get('params', [])) != 1 or c['params'][0].get('k') != 'Binding':
+        return False
+    b = peel(c['ch'][0])
+    while b.get('k') == 'Block' and not b.get('stmts') and 'expr' in b:
+        b = peel(b['expr'])
+    return b.get('k') == 'Path' and b.get('res') == 'local' and b.get('local') == c['params'][0]['local']
 
 
 def conj(e, env, positive=True):
